@@ -1,7 +1,7 @@
 /-
   Pulsar.Proofs.RapidWF — the draw-level model of rapidproto keeps messages well-typed (`msgOK`): every
   layer of `setFields`, for every draw sequence (in range or not: stored scalars are truncated to the
-  field's width).
+  field's width) and every field mapper whose values fit their kinds (`MapperTyped`).
 -/
 import Pulsar.Proofs.RapidModel
 import Pulsar.Proofs.Reflect
@@ -16,9 +16,15 @@ theorem rp_scalarVal_ok (E : List Int) (k : Kind) (d : Draw) : scalarOK k (scala
   cases k <;> simp [scalarVal, scalarOK, Kind.isBlob, Kind.width, ofInt32, ofInt64, h32, h64] <;>
     first | omega | (split <;> omega)
 
-theorem rp_ok_genScalar (E : List Int) (k : Kind) (ds : List Draw) :
-    Post (genScalar E k ds) (fun v _ => scalarOK k v = true) :=
-  rp_post_map (fun _ _ _ _ => rp_scalarVal_ok E k _)
+/-- a generated scalar fits its kind: a drawn one always (truncation), a mapped one because the harness
+    supplies such values (`MapperTyped`) -/
+theorem rp_ok_genScalar {o : GenOpts} (hmap : MapperTyped o) (E : List Int) (k : Kind) (ds : List Draw) :
+    Post (genScalar o E k ds) (fun v _ => scalarOK k v = true) := by
+  unfold genScalar
+  split
+  · rename_i w hw
+    exact rp_post_ok (hmap k w hw)
+  · exact rp_post_map (fun _ _ _ _ => rp_scalarVal_ok E k _)
 
 theorem rp_all_append_one {p : Val → Bool} {es : List Val} {v : Val} (h : es.all p = true) (hv : p v = true) :
     (es ++ [v]).all p = true := by
@@ -34,14 +40,14 @@ theorem rp_all_mapDel {p : Val → Bool} (kk : Kind) {es : List Val} (k : Val) (
   rw [List.all_eq_true] at *
   exact fun e he => h e (List.mem_filter.1 he).1
 
-theorem rp_ok_listScalars (E : List Int) (k : Kind) (child : Nat → Val → Bool) :
+theorem rp_ok_listScalars {o : GenOpts} (hmap : MapperTyped o) (E : List Int) (k : Kind) (child : Nat → Val → Bool) :
     ∀ (n : Nat) (es : List Val) (ds : List Draw), es.all (elemOK child (.scalar k) false) = true →
-    Post (listScalars E k n es ds) (fun es' _ => es'.all (elemOK child (.scalar k) false) = true)
+    Post (listScalars o E k n es ds) (fun es' _ => es'.all (elemOK child (.scalar k) false) = true)
   | 0, es, ds, h => rp_post_ok h
   | n+1, es, ds, h => by
     simp only [listScalars]
-    refine rp_post_bind (rp_ok_genScalar E k ds) (fun v rest tr _ hv => ?_)
-    exact rp_post_mono (rp_ok_listScalars E k child n _ rest (rp_all_append_one h (by simpa [elemOK] using hv)))
+    refine rp_post_bind (rp_ok_genScalar hmap E k ds) (fun v rest tr _ hv => ?_)
+    exact rp_post_mono (rp_ok_listScalars hmap E k child n _ rest (rp_all_append_one h (by simpa [elemOK] using hv)))
       (fun _ _ h => h)
 
 /-! ### children -/
@@ -67,32 +73,32 @@ theorem rp_ok_listMsgs (S : Schema) {n : Nat} {child : Nat → Val → List Draw
       · exact rp_post_mono (rp_ok_listMsgs S hc mi cnt (i+1) _ rest (all_take _ _ i h1)) (fun _ _ h => h)
       · exact rp_post_stuck
 
-theorem rp_ok_mapScalars (E : List Int) (kk vk : Kind) (child : Nat → Val → Bool) :
+theorem rp_ok_mapScalars {o : GenOpts} (hmap : MapperTyped o) (E : List Int) (kk vk : Kind) (child : Nat → Val → Bool) :
     ∀ (n : Nat) (es : List Val) (ds : List Draw),
     es.all (entryOK child false kk (.scalar vk)) = true → DistinctK kk es →
-    Post (mapScalars E kk vk n es ds)
+    Post (mapScalars o E kk vk n es ds)
       (fun es' _ => es'.all (entryOK child false kk (.scalar vk)) = true ∧ DistinctK kk es')
   | 0, es, ds, h, hd => rp_post_ok ⟨h, hd⟩
   | n+1, es, ds, h, hd => by
     simp only [mapScalars]
-    refine rp_post_bind (rp_ok_genScalar E kk ds) (fun k rest tr _ hk => ?_)
-    refine rp_post_bind (rp_ok_genScalar E vk rest) (fun v rest' tr' _ hv => ?_)
-    refine rp_post_mono (rp_ok_mapScalars E kk vk child n _ rest' ?_ ?_) (fun _ _ h => h)
+    refine rp_post_bind (rp_ok_genScalar hmap E kk ds) (fun k rest tr _ hk => ?_)
+    refine rp_post_bind (rp_ok_genScalar hmap E vk rest) (fun v rest' tr' _ hv => ?_)
+    refine rp_post_mono (rp_ok_mapScalars hmap E kk vk child n _ rest' ?_ ?_) (fun _ _ h => h)
     · exact rp_all_sort kk (all_mapPut _ es k v h (by simp [entryOK, hk, elemOK, hv]))
     · exact distinct_sort (distinct_mapPut k v hd)
 
 theorem rp_findEntry_mem {kk : Kind} {es : List Val} {k en : Val} (h : findEntry kk es k = some en) : en ∈ es :=
   List.mem_of_find?_eq_some h
 
-theorem rp_ok_mapMsgs (S : Schema) (E : List Int) {n : Nat} {child : Nat → Val → List Draw → R (Bool × Val)}
+theorem rp_ok_mapMsgs (S : Schema) {o : GenOpts} (hmap : MapperTyped o) (E : List Int) {n : Nat} {child : Nat → Val → List Draw → R (Bool × Val)}
     (hc : ChildOK S (n+1) child) (kk : Kind) (mi : Nat) : ∀ (cnt : Nat) (es : List Val) (ds : List Draw),
     es.all (entryOK (msgOK S false (n+1)) false kk (.message mi)) = true → DistinctK kk es →
-    Post (mapMsgs S E child kk mi cnt es ds)
+    Post (mapMsgs S o E child kk mi cnt es ds)
       (fun es' _ => es'.all (entryOK (msgOK S false (n+1)) false kk (.message mi)) = true ∧ DistinctK kk es')
   | 0, es, ds, h, hd => rp_post_ok ⟨h, hd⟩
   | cnt+1, es, ds, h, hd => by
     simp only [mapMsgs]
-    refine rp_post_bind (rp_ok_genScalar E kk ds) (fun k rest tr _ hk => ?_)
+    refine rp_post_bind (rp_ok_genScalar hmap E kk ds) (fun k rest tr _ hk => ?_)
     have hcur : msgOK S false (n+1) mi (valueOr (findEntry kk es k) (emptyMsg S mi)) = true := by
       cases hf : findEntry kk es k with
       | none => exact msgOK_emptyMsg S false n mi
@@ -100,7 +106,7 @@ theorem rp_ok_mapMsgs (S : Schema) (E : List Int) {n : Nat} {child : Nat → Val
         obtain ⟨k0, v0, rfl, _, hv0⟩ := entryOK_inv (List.all_eq_true.1 h en (rp_findEntry_mem hf))
         simpa [valueOr, elemOK] using hv0
     refine rp_post_bind (hc mi _ rest hcur) (fun r rest' tr' _ hr => ?_)
-    refine rp_post_mono (rp_ok_mapMsgs S E hc kk mi cnt _ rest' ?_ ?_) (fun _ _ h => h)
+    refine rp_post_mono (rp_ok_mapMsgs S hmap E hc kk mi cnt _ rest' ?_ ?_) (fun _ _ h => h)
     · split
       · exact rp_all_sort kk (all_mapPut _ es k r.2 h (by simp [entryOK, hk, elemOK, hr]))
       · exact rp_all_mapDel kk k h
@@ -132,7 +138,7 @@ theorem rp_put_ok (S : Schema) (n i : Nat) (f : FieldDesc) (j : Nat) (slots : Li
     (fun y _ ho _ => by rw [rp_isOneof_false hno] at ho; cases ho)
   simpa [rp_applyFW_put] using this
 
-theorem rp_ok_genField (S : Schema) (o : GenOpts) (E : List Int) {n : Nat}
+theorem rp_ok_genField (S : Schema) (o : GenOpts) (hmap : MapperTyped o) (E : List Int) {n : Nat}
     {child : Nat → Val → List Draw → R (Bool × Val)} (hc : ChildOK S (n+1) child)
     (i : Nat) (f : FieldDesc) (j : Nat) (slots : List Val) (u : Bytes) (ds : List Draw)
     (hm : msgOK S false (n+2) i (.msg slots u) = true) (hf : (S.msg i).fields[j]? = some f) :
@@ -146,7 +152,7 @@ theorem rp_ok_genField (S : Schema) (o : GenOpts) (E : List Int) {n : Nat}
     cases he : f.elem with
     | scalar k =>
       simp only []
-      refine rp_post_map (rp_post_mono (rp_ok_genScalar E k ds) (fun v _ hv => ?_))
+      refine rp_post_map (rp_post_mono (rp_ok_genScalar hmap E k ds) (fun v _ hv => ?_))
       exact rp_put_ok S (n+1) i f j slots u v hm hf (by simp [slotOK, hs, he, elemOK, hv]) hno
     | message mi =>
       simp only []
@@ -173,7 +179,7 @@ theorem rp_ok_genField (S : Schema) (o : GenOpts) (E : List Int) {n : Nat}
       simp only []
       refine rp_post_bind (rp_post_draw _ ds) (fun c rest tr _ _ => ?_)
       refine rp_post_map (rp_post_mono
-        (rp_ok_listScalars E k (msgOK S false (n+1)) _ _ rest (by rw [hcv, ← he]; exact hes)) (fun es' _ h' => ?_))
+        (rp_ok_listScalars hmap E k (msgOK S false (n+1)) _ _ rest (by rw [hcv, ← he]; exact hes)) (fun es' _ h' => ?_))
       exact rp_put_ok S (n+1) i f j slots u _ hm hf (by simpa [slotOK, hs, he] using h') hno
     | message mi =>
       simp only []
@@ -190,7 +196,7 @@ theorem rp_ok_genField (S : Schema) (o : GenOpts) (E : List Int) {n : Nat}
       simp only []
       refine rp_post_bind (rp_post_draw _ ds) (fun c rest tr _ _ => ?_)
       refine rp_post_map (rp_post_mono
-        (rp_ok_mapScalars E kk vk (msgOK S false (n+1)) _ _ rest (by rw [hcv, ← he]; exact hes)
+        (rp_ok_mapScalars hmap E kk vk (msgOK S false (n+1)) _ _ rest (by rw [hcv, ← he]; exact hes)
           (by rw [hcv]; exact hd')) (fun es' _ h' => ?_))
       exact rp_put_ok S (n+1) i f j slots u _ hm hf
         (slotOK_map_intro S (n+1) hs false (by rw [he]; exact h'.1) h'.2) hno
@@ -198,7 +204,7 @@ theorem rp_ok_genField (S : Schema) (o : GenOpts) (E : List Int) {n : Nat}
       simp only []
       refine rp_post_bind (rp_post_draw _ ds) (fun c rest tr _ _ => ?_)
       refine rp_post_map (rp_post_mono
-        (rp_ok_mapMsgs S E hc kk mi _ _ rest (by rw [hcv, ← he]; exact hes)
+        (rp_ok_mapMsgs S hmap E hc kk mi _ _ rest (by rw [hcv, ← he]; exact hes)
           (by rw [hcv]; exact hd')) (fun es' _ h' => ?_))
       exact rp_put_ok S (n+1) i f j slots u _ hm hf
         (slotOK_map_intro S (n+1) hs false (by rw [he]; exact h'.1) h'.2) hno
@@ -207,7 +213,7 @@ theorem rp_ok_genField (S : Schema) (o : GenOpts) (E : List Int) {n : Nat}
     cases he : f.elem with
     | scalar k =>
       simp only []
-      refine rp_post_map (rp_post_mono (rp_ok_genScalar E k ds) (fun v _ hv => ?_))
+      refine rp_post_map (rp_post_mono (rp_ok_genScalar hmap E k ds) (fun v _ hv => ?_))
       have := applyFW_ok S (n+1) i f j slots u hm hf (fw := .putOne v)
         (by simp [FWok, he, elemOK, hv]) (fun y hy => by cases hy)
       simpa [rp_applyFW_putOne _ _ _ _ _ _ hs] using this
@@ -241,7 +247,7 @@ theorem rp_ok_genField (S : Schema) (o : GenOpts) (E : List Int) {n : Nat}
 
 /-! ### the field loop and `setFields` -/
 
-theorem rp_ok_genFields (S : Schema) (o : GenOpts) (E : List Int) {n : Nat}
+theorem rp_ok_genFields (S : Schema) (o : GenOpts) (hmap : MapperTyped o) (E : List Int) {n : Nat}
     {child : Nat → Val → List Draw → R (Bool × Val)} (hc : ChildOK S (n+1) child) (i : Nat) (u : Bytes) :
     ∀ (rem : List FieldDesc) (j : Nat) (slots : List Val) (ds : List Draw),
     (S.msg i).fields.drop j = rem → msgOK S false (n+2) i (.msg slots u) = true →
@@ -258,12 +264,12 @@ theorem rp_ok_genFields (S : Schema) (o : GenOpts) (E : List Int) {n : Nat}
     simp only [genFields]
     refine rp_post_bind (rp_post_draw _ ds) (fun g rest tr _ _ => ?_)
     split
-    · exact rp_post_mono (rp_ok_genFields S o E hc i u rem (j+1) slots rest hdrop' hm) (fun _ _ h => h)
-    · refine rp_post_bind (rp_ok_genField S o E hc i f j slots u rest hm hf) (fun slots' rest' tr' _ hm' => ?_)
-      exact rp_post_mono (rp_ok_genFields S o E hc i u rem (j+1) slots' rest' hdrop' hm') (fun _ _ h => h)
+    · exact rp_post_mono (rp_ok_genFields S o hmap E hc i u rem (j+1) slots rest hdrop' hm) (fun _ _ h => h)
+    · refine rp_post_bind (rp_ok_genField S o hmap E hc i f j slots u rest hm hf) (fun slots' rest' tr' _ hm' => ?_)
+      exact rp_post_mono (rp_ok_genFields S o hmap E hc i u rem (j+1) slots' rest' hdrop' hm') (fun _ _ h => h)
 
 /-- `setFields` at `depth` keeps a message typed with fuel `N ≥ depthLimit + 2 - depth` -/
-theorem rp_ok_setFields (S : Schema) (o : GenOpts) (E : List Int) : ∀ (fuel N depth i : Nat) (v : Val)
+theorem rp_ok_setFields (S : Schema) (o : GenOpts) (hmap : MapperTyped o) (E : List Int) : ∀ (fuel N depth i : Nat) (v : Val)
     (ds : List Draw), Extracted.depthLimit + 2 ≤ N + depth → msgOK S false N i v = true →
     Post (setFields S o E fuel depth i v ds) (fun r _ => msgOK S false N i r.2 = true)
   | 0, N, depth, i, v, ds, _, hv => by
@@ -279,9 +285,9 @@ theorem rp_ok_setFields (S : Schema) (o : GenOpts) (E : List Int) : ∀ (fuel N 
       obtain ⟨n, rfl⟩ : ∃ n, N = n + 2 := ⟨N - 2, by omega⟩
       obtain ⟨slots, u, rfl⟩ := rf_msgOK_isMsg hv
       have hc : ChildOK S (n+1) (setFields S o E fuel (depth+1)) :=
-        fun mi c ds' hcv => rp_ok_setFields S o E fuel (n+1) (depth+1) mi c ds' (by omega) hcv
+        fun mi c ds' hcv => rp_ok_setFields S o hmap E fuel (n+1) (depth+1) mi c ds' (by omega) hcv
       refine rp_post_map (rp_post_mono
-        (rp_ok_genFields S o E hc i u _ 0 slots ds (by simp) hv) (fun slots' _ h' => ?_))
+        (rp_ok_genFields S o hmap E hc i u _ 0 slots ds (by simp) hv) (fun slots' _ h' => ?_))
       simpa [Val.unknown, Val.slots] using h'
 
 end Pulsar.Rapidproto
